@@ -1497,10 +1497,17 @@ func (c *layoutCtx) elemLayoutDec(rep *Event, stored *Val) *FieldLayout {
 	if col == nil {
 		return &FieldLayout{Kind: "irregular", Note: "list value is not the accumulation of the loop's reads"}
 	}
-	elem := col.Args[1]
+	elemAll := col.Args[1]
 	var first *FieldLayout
 	canon := ""
-	for _, arm := range rep.Iter {
+	for ai, arm := range rep.Iter {
+		// (when the ways through the body append different expressions, this way's own one)
+		elem := elemAll
+		if al := stripCT(elemAll); al.Op == "arraylit" && len(al.Args) == 1 {
+			if ch := stripCT(al.Args[0]); ch.Op == "choice" && ch.Name == "perarm" && len(ch.Args) == len(rep.Iter) {
+				elem = &Val{Op: "arraylit", Args: []*Val{ch.Args[ai]}, Type: al.Type}
+			}
+		}
 		sub := *c
 		fs := sub.extractDec(arm.Events, func(ids []int, loop int) (string, int, *Val, bool) {
 			for _, id := range ids {
